@@ -338,6 +338,7 @@ func (vc *VC) merge(a, b *State, cond string) *State {
 		n++
 	}
 	m := &State{locals: map[types.Object]string{}, heap: map[string]string{}, globals: map[types.Object]string{}, ghost: map[string]string{}}
+	m.guards = append([]string(nil), a.guards...)
 	m.pc = append([]string(nil), a.pc[:n]...)
 	ra := a.pc[n:]
 	rb := b.pc[n:]
